@@ -2,6 +2,7 @@ package main
 
 import (
 	"fmt"
+	"go/constant"
 	"go/token"
 	"go/types"
 	"strings"
@@ -530,6 +531,16 @@ func (ft *fnTrans) binop(x *ssa.BinOp, reach string) string {
 	case token.GEQ:
 		return "(>= " + a + " " + b + ")"
 	}
+	// masks of the form 2^k-1 on non-negative operands are arithmetic
+	if c, ok := x.Y.(*ssa.Const); ok && c.Value != nil && (x.Op == token.AND || x.Op == token.AND_NOT) {
+		if m, exact := constantUint64(c); exact && m&(m+1) == 0 && isUnsigned(ty) {
+			pow := fmt.Sprint(m + 1)
+			if x.Op == token.AND {
+				return "(mod " + a + " " + pow + ")"
+			}
+			return "(- " + a + " (mod " + a + " " + pow + "))"
+		}
+	}
 	unsup("integer operator %v (bit-level arithmetic is outside the subset)", x.Op)
 	return ""
 }
@@ -772,4 +783,12 @@ func (ft *fnTrans) retOrdinal(x *ssa.Return) int {
 		}
 	}
 	return n
+}
+
+
+func constantUint64(c *ssa.Const) (uint64, bool) {
+	if c.Value == nil {
+		return 0, false
+	}
+	return constant.Uint64Val(constant.ToInt(c.Value))
 }
